@@ -80,6 +80,33 @@ package calendar
 //@   domain y 1 9998
 //@   checked_by tables
 
+//@ # T5 no lunar (year, month) pair occurs twice in a table
+//@ axiom uniqueAx(y int) [C01 C06 C07]
+//@   requires 0 <= y && y <= 9999
+//@   ensures all(0, 13, func(i int) bool { return all(i+1, 14, func(j int) bool { return !(mY(y, i) == mY(y, j) && mM(y, i) == mM(y, j)) }) })
+//@   domain y 0 9999
+//@   checked_by tables
+
+//@ # table cy lists the same month (first day, lunar year, number, length) as entry i of table y
+//@ spec func hasMonth(cy int, y int, i int) bool
+//@   = exists(0, 14, func(j int) bool { return mF(cy, j) == mF(y, i) && mY(cy, j) == mY(y, i) && mM(cy, j) == mM(y, i) && mD(cy, j) == mD(y, i) })
+
+//@ # T7/T8 every month of lunar year y is listed, identically, in the tables of the civil years its days fall in
+//@ axiom crossAx(y int) [C01 C06 C07]
+//@   requires 1 <= y && y <= 9998
+//@   ensures all(0, 14, func(i int) bool { return implies(mY(y, i) == y, hasMonth(yOf(mF(y, i)), y, i) && hasMonth(yOf(mF(y, i)+mD(y, i)-1), y, i)) })
+//@   domain y 1 9998
+//@   checked_by tables
+
+//@ # T7 (reverse direction) every entry of table y is listed identically in the table of its own lunar year. False for
+//@ # exactly one entry: the month beginning JD 1728022 is (19, 2) in the table of AD 18 and (19, leap 1) in the table
+//@ # of AD 19 (first calendar-reform era); AD 18 is excluded here.
+//@ axiom crossBackAx(y int) [C01]
+//@   requires 1 <= y && y <= 9998 && y != 18
+//@   ensures all(0, 14, func(i int) bool { return implies(1 <= mY(y, i) && mY(y, i) <= 9998, hasMonth(mY(y, i), y, i)) })
+//@   domain y 1 9998
+//@   checked_by tables
+
 //@ # ================================================================ LunarMonth / LunarYear objects
 
 //@ type LunarMonth established_by NewLunarMonth
@@ -104,22 +131,22 @@ package calendar
 //@   ensures result.ganIndex == modf(lunarYear-4, 10) && result.zhiIndex == modf(lunarYear-4, 12)
 
 //@ # index of the table month of year y that contains day number j (first month whose end lies after j)
-//@ spec func midx(y int, j int) int
+//@ opaque spec func midx(y int, j int) int
 //@   = ite(j < mF(y, 1), 0, ite(j < mF(y, 2), 1, ite(j < mF(y, 3), 2, ite(j < mF(y, 4), 3, ite(j < mF(y, 5), 4,
 //@     ite(j < mF(y, 6), 5, ite(j < mF(y, 7), 6, ite(j < mF(y, 8), 7, ite(j < mF(y, 9), 8, ite(j < mF(y, 10), 9,
 //@     ite(j < mF(y, 11), 10, ite(j < mF(y, 12), 11, ite(j < mF(y, 13), 12, ite(j < mF(y, 14), 13, 14))))))))))))))
 
 //@ # select by symbolic index over the 15 entries
-//@ spec func mYat(y int, i int) int
+//@ opaque spec func mYat(y int, i int) int
 //@   = ite(i == 0, mY(y, 0), ite(i == 1, mY(y, 1), ite(i == 2, mY(y, 2), ite(i == 3, mY(y, 3), ite(i == 4, mY(y, 4), ite(i == 5, mY(y, 5), ite(i == 6, mY(y, 6), ite(i == 7, mY(y, 7),
 //@     ite(i == 8, mY(y, 8), ite(i == 9, mY(y, 9), ite(i == 10, mY(y, 10), ite(i == 11, mY(y, 11), ite(i == 12, mY(y, 12), ite(i == 13, mY(y, 13), mY(y, 14)))))))))))))))
-//@ spec func mMat(y int, i int) int
+//@ opaque spec func mMat(y int, i int) int
 //@   = ite(i == 0, mM(y, 0), ite(i == 1, mM(y, 1), ite(i == 2, mM(y, 2), ite(i == 3, mM(y, 3), ite(i == 4, mM(y, 4), ite(i == 5, mM(y, 5), ite(i == 6, mM(y, 6), ite(i == 7, mM(y, 7),
 //@     ite(i == 8, mM(y, 8), ite(i == 9, mM(y, 9), ite(i == 10, mM(y, 10), ite(i == 11, mM(y, 11), ite(i == 12, mM(y, 12), ite(i == 13, mM(y, 13), mM(y, 14)))))))))))))))
-//@ spec func mFat(y int, i int) int
+//@ opaque spec func mFat(y int, i int) int
 //@   = ite(i == 0, mF(y, 0), ite(i == 1, mF(y, 1), ite(i == 2, mF(y, 2), ite(i == 3, mF(y, 3), ite(i == 4, mF(y, 4), ite(i == 5, mF(y, 5), ite(i == 6, mF(y, 6), ite(i == 7, mF(y, 7),
 //@     ite(i == 8, mF(y, 8), ite(i == 9, mF(y, 9), ite(i == 10, mF(y, 10), ite(i == 11, mF(y, 11), ite(i == 12, mF(y, 12), ite(i == 13, mF(y, 13), mF(y, 14)))))))))))))))
-//@ spec func mDat(y int, i int) int
+//@ opaque spec func mDat(y int, i int) int
 //@   = ite(i == 0, mD(y, 0), ite(i == 1, mD(y, 1), ite(i == 2, mD(y, 2), ite(i == 3, mD(y, 3), ite(i == 4, mD(y, 4), ite(i == 5, mD(y, 5), ite(i == 6, mD(y, 6), ite(i == 7, mD(y, 7),
 //@     ite(i == 8, mD(y, 8), ite(i == 9, mD(y, 9), ite(i == 10, mD(y, 10), ite(i == 11, mD(y, 11), ite(i == 12, mD(y, 12), ite(i == 13, mD(y, 13), mD(y, 14)))))))))))))))
 
@@ -171,6 +198,10 @@ package calendar
 //@     all(0, 14, func(t int) bool { return dayBefore(jqs(l, 2*t), jqs(l, 2*t+2)) }) &&
 //@     jqs(l, 4).year == y && jqs(l, 1).year == y-1 && jqs(l, 0).year == y-1 && jqs(l, 25).year == y && jqs(l, 28).year == y+1
 
+//@ # the entries are *the* conversion results of the table's Julian Days (determinism of the conversion)
+//@ spec func termsDet(l *Lunar, y int) bool
+//@   = all(0, 30, func(k int) bool { return tsec(jqs(l, k)) == nsec(jq(y, k)) })
+
 //@ spec func termsInYears(l *Lunar) bool
 //@   = all(0, 30, func(k int) bool { return jqs(l, k) != nil && inYears(jqs(l, k).year) })
 
@@ -179,6 +210,7 @@ package calendar
 //@   modifies lunar.jieQi lunar.jieQiList
 //@   ensures termsOf(lunar, lunarYear.year)
 //@   ensures termsOrdered(lunar, lunarYear.year)
+//@   ensures termsDet(lunar, lunarYear.year)
 //@   use termAx(lunarYear.year)
 //@   use solarOrder(jqs(lunar, k), jqs(lunar, k+1)) for k in 0..29 @ end
 //@   use solarOrder(jqs(lunar, 2*t), jqs(lunar, 2*t+2)) for t in 0..14 @ end
@@ -265,6 +297,7 @@ package calendar
 //@   requires lunar.solar != nil && 0 <= lunar.solar.year && lunar.solar.year <= 9999 && validHms(lunar.hour, lunar.minute, lunar.second)
 //@   modifies lunar.dayGanIndex lunar.dayZhiIndex lunar.dayGanIndexExact lunar.dayZhiIndexExact lunar.dayGanIndexExact2 lunar.dayZhiIndexExact2
 //@   ensures dayPillarsOK(lunar)
+//@   cut offset#1: offset == sjdn(lunar.solar)-11 && offset >= 1721047
 
 //@ # hour pillar: branch by the two-hour slot (23:00-00:59 is zi), stem from the early-rat day stem
 //@ spec func timePillarsOK(l *Lunar) bool
@@ -293,11 +326,12 @@ package calendar
 //@ spec func wfLunar(l *Lunar) bool
 //@   = l.solar != nil && 1 <= l.solar.year && l.solar.year <= 9998 &&
 //@     l.hour == l.solar.hour && l.minute == l.solar.minute && l.second == l.solar.second &&
-//@     inTable(l) && termsOf(l, l.solar.year) && termsOrdered(l, l.solar.year) &&
+//@     inTable(l) && termsOf(l, l.solar.year) && termsOrdered(l, l.solar.year) && termsDet(l, l.solar.year) &&
 //@     yearPillarsOK(l) && yearIndexRanges(l) && monthPillarsOK(l) && monthIndexRanges(l) && dayPillarsOK(l) && timePillarsOK(l) &&
 //@     l.weekIndex == wd(l.solar.year, l.solar.month, l.solar.day)
 
 //@ func NewLunarFromSolar(solar *Solar) *Lunar [C01 C05 C07]
+//@   reveal midx mYat mMat mFat mDat
 //@   requires 1 <= solar.year && solar.year <= 9998
 //@   ensures sameSolar(result.solar, solar)
 //@   use tableAx(solar.year)
@@ -309,3 +343,127 @@ package calendar
 //@                     lunarDay == sjdn(solar)-mFat(solar.year, midx(solar.year, sjdn(solar)))+1 && 1 <= lunarDay && lunarDay <= mDat(solar.year, midx(solar.year, sjdn(solar))) &&
 //@                     solar.year-1 <= lunarYear && lunarYear <= solar.year+1
 //@   split midx(solar.year, sjdn(solar)) in 0..14
+
+//@ # index of the first entry of table y naming lunar month (y, m); 15 when there is none
+//@ opaque spec func findM(y int, m int) int
+//@   = ite(mY(y, 0) == y && mM(y, 0) == m, 0, ite(mY(y, 1) == y && mM(y, 1) == m, 1, ite(mY(y, 2) == y && mM(y, 2) == m, 2, ite(mY(y, 3) == y && mM(y, 3) == m, 3,
+//@     ite(mY(y, 4) == y && mM(y, 4) == m, 4, ite(mY(y, 5) == y && mM(y, 5) == m, 5, ite(mY(y, 6) == y && mM(y, 6) == m, 6, ite(mY(y, 7) == y && mM(y, 7) == m, 7,
+//@     ite(mY(y, 8) == y && mM(y, 8) == m, 8, ite(mY(y, 9) == y && mM(y, 9) == m, 9, ite(mY(y, 10) == y && mM(y, 10) == m, 10, ite(mY(y, 11) == y && mM(y, 11) == m, 11,
+//@     ite(mY(y, 12) == y && mM(y, 12) == m, 12, ite(mY(y, 13) == y && mM(y, 13) == m, 13, ite(mY(y, 14) == y && mM(y, 14) == m, 14, 15)))))))))))))))
+
+//@ # a lunar date (y, m, d) exists iff table y names month (y, m) and d is one of its days
+//@ spec func lunarExists(y int, m int, d int) bool
+//@   = findM(y, m) <= 14 && 1 <= d && d <= mDat(y, findM(y, m))
+
+//@ # day number of an existing lunar date
+//@ spec func lunarJdn(y int, m int, d int) int
+//@   = mFat(y, findM(y, m)) + d - 1
+
+//@ # Locating day j = mF(y,i)+d-1 of entry i (a month of lunar year y) in the table of the civil year cy of that day
+//@ # finds the same month: same lunar year, number, first day and length (cross-table consistency, T7).
+//@ lemma monthLocate(y int, i int, d int, cy int) [C01 C07]
+//@   reveal midx mYat mMat mFat mDat findM
+//@   requires 1 <= y && y <= 9998 && 0 <= i && i <= 14 && mYat(y, i) == y && 1 <= d && d <= mDat(y, i) && cy == yOf(mFat(y, i)+d-1) && 1 <= cy && cy <= 9998
+//@   ensures mYat(cy, midx(cy, mFat(y, i)+d-1)) == y && mMat(cy, midx(cy, mFat(y, i)+d-1)) == mMat(y, i) &&
+//@           mFat(cy, midx(cy, mFat(y, i)+d-1)) == mFat(y, i) && mDat(cy, midx(cy, mFat(y, i)+d-1)) == mDat(y, i)
+//@   use tableAx(y)
+//@   use tableAx(cy)
+//@   use crossAx(y)
+//@   use yOfMono(mFat(y, i), mFat(y, i)+d-1)
+//@   use yOfMono(mFat(y, i)+d-1, mFat(y, i)+mDat(y, i)-1)
+//@   use yOfMono(mFat(y, i), mFat(y, i)+mDat(y, i)-1)
+//@   split i in 0..14
+
+//@ # A lunar date constructor succeeds exactly for the (year, month, day) triples that exist in the month table
+//@ # (negative month = leap month, accepted only where that leap month exists) with a valid time of day.
+//@ func NewLunar(lunarYear int, lunarMonth int, lunarDay int, hour int, minute int, second int) *Lunar [C01 C07]
+//@   reveal midx mYat mMat mFat mDat findM
+//@   requires 2 <= lunarYear && lunarYear <= 9997
+//@   panics_iff !(lunarExists(lunarYear, lunarMonth, lunarDay) && validHms(hour, minute, second))
+//@   ensures result.year == lunarYear && result.month == lunarMonth && result.day == lunarDay
+//@   ensures sjdn(result.solar) == lunarJdn(lunarYear, lunarMonth, lunarDay) && result.hour == hour && result.minute == minute && result.second == second
+//@   use tableAx(lunarYear)
+//@   use uniqueAx(lunarYear)
+//@   use yearOfDate(noon.year, noon.month, noon.day) @ noon#1
+//@   use yearOfDate(lunarYear-1, 11, 1) @ noon#1
+//@   use yearOfDate(lunarYear+1, 4, 1) @ noon#1
+//@   use yOfMono(jdn(lunarYear-1, 11, 1), sjdn(noon)) @ noon#1
+//@   use yOfMono(sjdn(noon), jdn(lunarYear+1, 4, 1)) @ noon#1
+//@   use monthLocate(lunarYear, findM(lunarYear, lunarMonth), lunarDay, noon.year) @ noon#1
+//@   use tableAx(noon.year) @ noon#1
+//@   hint noon#1: sjdn(noon) == lunarJdn(lunarYear, lunarMonth, lunarDay) && 1 <= noon.year && noon.year <= 9998
+//@   hint noon#1: mFat(noon.year, midx(noon.year, sjdn(noon))) == mFat(lunarYear, findM(lunarYear, lunarMonth)) && mYat(noon.year, midx(noon.year, sjdn(noon))) == lunarYear &&
+//@                mMat(noon.year, midx(noon.year, sjdn(noon))) == lunarMonth && mDat(noon.year, midx(noon.year, sjdn(noon))) == mDat(lunarYear, findM(lunarYear, lunarMonth))
+
+//@ lemma midxRange(y int, j int) [C01]
+//@   ensures 0 <= midx(y, j) && midx(y, j) <= 14
+//@   reveal midx
+
+//@ # Conversely: entry i of the table of civil year cy, looked up by (lunar year, month) in the table of its own lunar
+//@ # year, is found there with the same first day and length.
+//@ lemma monthLocateBack(cy int, i int) [C01]
+//@   reveal midx mYat mMat mFat mDat findM
+//@   requires 1 <= cy && cy <= 9998 && cy != 18 && 0 <= i && i <= 14 && 1 <= mYat(cy, i) && mYat(cy, i) <= 9998
+//@   ensures findM(mYat(cy, i), mMat(cy, i)) <= 14 && mFat(mYat(cy, i), findM(mYat(cy, i), mMat(cy, i))) == mFat(cy, i) && mDat(mYat(cy, i), findM(mYat(cy, i), mMat(cy, i))) == mDat(cy, i)
+//@   use crossBackAx(cy)
+//@   use uniqueAx(mYat(cy, i))
+//@   split i in 0..14
+
+//@ # ================================================================ C01 lemmas over the two constructors
+
+//@ # all index fields and the date fields agree (everything observable apart from the term table, see sameTerms)
+//@ spec func sameLunarCore(a *Lunar, b *Lunar) bool
+//@   = a.year == b.year && a.month == b.month && a.day == b.day && a.hour == b.hour && a.minute == b.minute && a.second == b.second && sameSolar(a.solar, b.solar) &&
+//@     a.yearGanIndex == b.yearGanIndex && a.yearZhiIndex == b.yearZhiIndex && a.dayGanIndex == b.dayGanIndex && a.dayZhiIndex == b.dayZhiIndex &&
+//@     a.dayGanIndexExact == b.dayGanIndexExact && a.dayZhiIndexExact == b.dayZhiIndexExact && a.dayGanIndexExact2 == b.dayGanIndexExact2 && a.dayZhiIndexExact2 == b.dayZhiIndexExact2 &&
+//@     a.timeGanIndex == b.timeGanIndex && a.timeZhiIndex == b.timeZhiIndex && a.weekIndex == b.weekIndex
+//@ spec func sameTerms(a *Lunar, b *Lunar) bool
+//@   = all(0, 30, func(k int) bool { return tsec(jqs(a, k)) == tsec(jqs(b, k)) })
+
+//@ # civil -> lunar -> civil returns the same date-time
+//@ ghost func rtSolar(s *Solar) [C01]
+//@   requires 3 <= s.year && s.year <= 9996 && s.year != 18
+//@   body
+//@     l := NewLunarFromSolar(s)
+//@     tableAx(s.year)
+//@     midxRange(s.year, sjdn(s))
+//@     monthLocateBack(s.year, midx(s.year, sjdn(s)))
+//@     r := NewLunar(l.year, l.month, l.day, l.hour, l.minute, l.second)
+//@     assert(sjdn(r.solar) == sjdn(s))
+//@     jdnMono(r.solar.year, r.solar.month, r.solar.day, s.year, s.month, s.day)
+//@     jdnMono(s.year, s.month, s.day, r.solar.year, r.solar.month, r.solar.day)
+//@     assert(sameSolar(r.solar, s))
+
+//@ # lunar -> civil -> lunar returns the same lunar date, and the two constructions give identical objects
+//@ ghost func rtLunar(y int, m int, d int, h int, mi int, sec int) [C01]
+//@   requires 2 <= y && y <= 9997 && lunarExists(y, m, d) && validHms(h, mi, sec)
+//@   body
+//@     a := NewLunar(y, m, d, h, mi, sec)
+//@     b := NewLunarFromSolar(a.solar)
+//@     assert(b.year == y && b.month == m && b.day == d && b.hour == h && b.minute == mi && b.second == sec)
+//@     assert(sameLunarCore(a, b))
+//@     assert(sameTerms(a, b))
+
+//@ # stepping n days on the lunar side is stepping n days on the civil side
+//@ ghost func lunarNext(l *Lunar, n int) [C01]
+//@   requires jdnInRange(sjdn(l.solar)+n) && jdn(1, 1, 1) <= sjdn(l.solar)+n && sjdn(l.solar)+n <= jdn(9998, 12, 31)
+//@   body
+//@     yearOfDate(1, 1, 1)
+//@     yearOfDate(9998, 12, 31)
+//@     yOfMono(jdn(1, 1, 1), sjdn(l.solar)+n)
+//@     yOfMono(sjdn(l.solar)+n, jdn(9998, 12, 31))
+//@     t := l.solar.NextDay(n)
+//@     a := l.Next(n)
+//@     b := NewLunarFromSolar(t)
+//@     assert(sjdn(a.solar) == sjdn(l.solar)+n)
+//@     jdnMono(a.solar.year, a.solar.month, a.solar.day, t.year, t.month, t.day)
+//@     jdnMono(t.year, t.month, t.day, a.solar.year, a.solar.month, a.solar.day)
+//@     assert(sameLunarCore(a, b))
+
+//@ # order: later civil day => later (table position, day) within a civil year's table, and lunar year numbers do not decrease
+//@ lemma orderInTable(y int, j1 int, j2 int) [C01]
+//@   reveal midx mYat mMat mFat mDat
+//@   requires 1 <= y && y <= 9998 && mF(y, 0) <= j1 && j1 < j2 && j2 < mF(y, 14)+mD(y, 14)
+//@   ensures midx(y, j1) < midx(y, j2) || (midx(y, j1) == midx(y, j2) && j1-mFat(y, midx(y, j1)) < j2-mFat(y, midx(y, j2)))
+//@   ensures mYat(y, midx(y, j1)) <= mYat(y, midx(y, j2))
+//@   use tableAx(y)
